@@ -2,7 +2,7 @@
 from .. import ir, mm, pat, paths, lockset
 from ..core import Broken
 from ..flavors import FL, ALL
-from . import c03, c19
+from . import c03, c15, c19
 
 META = {
     "explanation": "Lock hand-offs across fork are exact: call_rcu_before_fork returns holding call_rcu_mutex and both after_fork handlers release it exactly once; the bp handlers hand over "
@@ -160,34 +160,47 @@ def _helper_pause(rep, h, tag, fld, PAUSE, PAUSED, unreg, reg, bp=False, wq=Fals
     rep.check(g, "C16.pause", tag + ".PAUSED-iff-PAUSE", "PAUSED is set only in response to PAUSE", "PAUSED set without a PAUSE request", [orr[0].where()])
 
 
-def rule_child(ctx, rep):
+def rule_child(ctx, rep, rid="C16.child", callrcu_only=False):
     FLG = c03.flags(ctx)
     for fl in ALL:
         F = FL[fl]
         c = ctx.fn(F.lib, F.pfx + "_call_rcu_after_fork_child")
         rep.touch(c)
         joins = pat.calls(c, "pthread_join")
-        rep.check(not joins, "C16.child", fl + ".no-join", "the child never joins helper threads (they do not exist after fork)", "after_fork_child joins a thread that does not exist in the child: it blocks forever / fails",
+        rep.check(not joins, rid, fl + ".no-join", "the child never joins helper threads (they do not exist after fork)", "after_fork_child joins a thread that does not exist in the child: it blocks forever / fails",
                   [j.where() for j in joins[:1]])
         fr = [x for x in pat.calls(c, "free") if pat.from_fn(x, "_call_rcu_data_free")]
         if not fr:
-            rep.bad("C16.child", fl + ".frees-stale", "stale helpers are not freed in the child", [c.name])
+            rep.bad(rid, fl + ".frees-stale", "stale helpers are not freed in the child", [c.name])
             continue
         st = [s for s in pat.stores(c, "call_rcu_data.flags") if ir.const_of(c, s.args[0]) == FLG.STOPPED]
-        rep.must_pass("C16.child", fl + ".STOPPED≺free", c, [c.entry()], fr, lambda i: i in st, include_start=True,
+        rep.must_pass(rid, fl + ".STOPPED≺free", c, [c.entry()], fr, lambda i: i in st, include_start=True,
                       what="each stale helper is marked STOPPED before being freed (no waiting for a thread that does not exist)")
         dn = [s for s in pat.stores(c, glob="default_call_rcu_data") if ir.const_of(c, s.args[0]) == 0]
         gd = pat.calls(c, F.pfx + "_get_default_call_rcu_data")
         if not dn or not gd:
-            rep.bad("C16.child", fl + ".new-default", "the child does not create a fresh default helper", [c.name])
+            rep.bad(rid, fl + ".new-default", "the child does not create a fresh default helper", [c.name])
         else:
-            rep.must_pass("C16.child", fl + ".reset≺new-default≺free", c, dn, fr, lambda i: i in gd, what="a new default helper exists before stale helpers (and their leftover callbacks) are disposed of")
-            rep.must_pass("C16.child", fl + ".reset-first", c, [c.entry()], gd, lambda i: i in dn, include_start=True, what="the inherited default pointer is reset before a new helper is created")
+            rep.must_pass(rid, fl + ".reset≺new-default≺free", c, dn, fr, lambda i: i in gd, what="a new default helper exists before stale helpers (and their leftover callbacks) are disposed of")
+            rep.must_pass(rid, fl + ".reset-first", c, [c.entry()], gd, lambda i: i in dn, include_start=True, what="the inherited default pointer is reset before a new helper is created")
+        if dn:
+            # the rebuild is skipped only when no helper exists at all (call_rcu_data_list empty): helpers created explicitly
+            # (create_call_rcu_data, per-thread / per-CPU) exist without a default helper - their callbacks must still be adopted
+            empt = []
+            for b in c.blocks:
+                for s_ in b.succ:
+                    for a in ir.edge_atoms(c, b.id, s_):
+                        if a[0] == "eq" and {a[1][0], a[2][0]} == {"addr", "load"} and all(x[1].startswith("@call_rcu_data_list") for x in (a[1], a[2])):
+                            empt.append((b.id, s_))
+            rep.must_take_edge(rid, fl + ".skip-only-when-no-helper", c, [c.entry()], None, empt, to_exit=True, include_start=True, avoid=lambda i: i in dn,
+                               what="the child returns without rebuilding only when call_rcu_data_list is empty")
         tl = [s for s in pat.stores(c, glob="thread_call_rcu_data") if ir.const_of(c, s.args[0]) == 0]
         pc = [s for s in pat.stores(c, glob="per_cpu_call_rcu_data") if ir.const_of(c, s.args[0]) == 0]
-        rep.check(bool(tl) and bool(pc), "C16.child", fl + ".reset-tls-percpu", "per-thread and per-CPU helper pointers are reset", "stale per-thread / per-CPU helper pointers survive in the child", [c.name])
+        rep.check(bool(tl) and bool(pc), rid, fl + ".reset-tls-percpu", "per-thread and per-CPU helper pointers are reset", "stale per-thread / per-CPU helper pointers survive in the child", [c.name])
         g = any(a[0] == "ne" and any(x[0] == "load" and x[1] == "@default_call_rcu_data" for x in (a[1], a[2])) for a in pat.dom_leaf_atoms(c, st[0])) if st else False
-        rep.check(g, "C16.child", fl + ".keeps-new-default", "the new default helper is not freed", "the freshly created default helper is freed too", [fr[0].where()])
+        rep.check(g, rid, fl + ".keeps-new-default", "the new default helper is not freed", "the freshly created default helper is freed too", [fr[0].where()])
+    if callrcu_only:
+        return
     # bp prune
     m = ctx.mod("bp", "perfn")
     p = m.fn("urcu_bp_prune_registry")
@@ -460,5 +473,6 @@ RULES = [
     ("C16.hookreg", rule_hookreg),
     ("C16.handover", rule_child_handover),
     ("C16.bpmask", rule_bp_mask),
+    ("C16.slot", lambda c, r: c15.rule_slot(c, r, "C16.slot")),   # the fork child prunes other threads' slots through cleanup_thread
 ]
 FLOORS = {}
